@@ -697,15 +697,20 @@ func loadKnown(path string) knownSet {
 			continue // "fixed:" entries and comments suppress nothing
 		}
 		f := strings.Fields(l[len("known:"):])
-		e := knownEntry{text: strings.TrimSpace(l[len("known:"):])}
+		e := knownEntry{}
+		var rest []string
 		for _, w := range f {
-			if strings.HasPrefix(w, "property=") {
+			switch {
+			case strings.HasPrefix(w, "property="):
 				e.prop = w[len("property="):]
-			}
-			if strings.HasPrefix(w, "sig=") {
+			case strings.HasPrefix(w, "sig="):
 				e.sig = w[len("sig="):]
+				rest = append(rest, w)
+			default:
+				rest = append(rest, w)
 			}
 		}
+		e.text = strings.Join(rest, " ")
 		if e.prop != "" && e.sig != "" {
 			ks.entries = append(ks.entries, e)
 		}
